@@ -48,6 +48,9 @@ SEEDS = [
     "query Q($a: [Int!]!, $m: [[Int]!]) { lst(xs: $a, m: $m) }",
     "query Q($m: [[Int!]!]!, $p: [P!]!) { ...LF } fragment LF on Query { lst(m: $m, ps: $p) }",
     "query Q($i: [Int]!) { lst(m: [$i, [1]]) }",
+    # aliases named like *other* fields of the same parent type, whose same-named arguments have other types
+    "query Q($x: String, $i: Int!) { need: hello(x: $x) hello: need(x: $i) echo: a { id echo: name } }",
+    "query Q($x: String) { ...AF } fragment AF on Query { need: hello(x: $x, n: 2) num }",
     # a variable used on a field whose sub-selection ends with a field that has an argument of the same name and another type
     "mutation M($s: Int) { set(s: $s) { id echo(s: \"x\") } }",
     "mutation M($s: Int, $x: String) { ...MS } fragment MS on Mutation { set(s: $s, v: $x) { ... on A { name echo(x: 1, s: \"y\") } } }",
